@@ -235,6 +235,39 @@ def run_chain_unit(unit, res, c, progress):
         for vi, (catch, item, helper, nosource) in enumerate(variants):
             for how in ("call", "value", "value_again", "swallowed_then_observed", "caught_in_sync_reentry_then_propagated"):
                 asynq.scheduler.reset()
+                prelude_viol = None
+                if vi % 4 == 3:
+                    # the same thread has just run a computation in which a context failed to re-activate after a
+                    # flush and the caller handled it: diagnostics afterwards must not be affected
+                    from . import c06
+                    from asynq import debug as adebug
+
+                    if vi % 8 == 3:
+                        pprog = c06.lease_program(random.Random(tl.case_seed(unit["seed"], ID, "prelude%d-%d" % (d, vi))))
+                    else:
+                        # the failing task is woken by the outermost scheduler loop itself; its awaiter handles the error
+                        pprog = {
+                            "nodes": [
+                                {"style": "asynq", "ret": "return", "body": [["try", [["yield", ["list", [["leaf", ["call", "p1", 1]], ["leaf", ["item", 0, "pk0"]]]]]], "exc", [], False], ["yield", ["leaf", ["item", 0, "pk3"]]]]},
+                                {"style": "asynq", "ret": "return", "body": [["with", ["actx", "lease"], [["yield", ["leaf", ["item", 0, "pk1"]]], ["yield", ["leaf", ["item", 0, "pk2"]]]]]]},
+                            ],
+                            "root": 0,
+                            "shared": [],
+                            "kinds": 1,
+                            "faults": {},
+                            "flush_faults": {},
+                            "ctx_faults": {"lease": ["resume", 2]},
+                            "defaults": {"sv0": "dflt-sv0", "sv1": "dflt-sv1", "at0": "dflt-at0"},
+                        }
+                    prt = harness.HarnessRT(pprog, seed=0)
+                    prt.run("call")
+                    c["chains_after_a_failed_context_resume"] = c.get("chains_after_a_failed_context_resume", 0) + 1
+                    try:
+                        outside = adebug.format_asynq_stack()
+                    except BaseException as e:
+                        outside = ("raised", exc_desc(e))
+                    if outside is not None:
+                        prelude_viol = ("format_asynq_stack-outside-any-task-is-not-None", {"returned": repr(outside)[:200]})
                 rt = harness.HarnessRT({"nodes": [], "kinds": 1})
                 stack_out = []
                 ns = make_chain(d, {"catch": catch, "item": item, "helper": helper, "nosource": nosource}, rt, stack_out)
@@ -284,6 +317,8 @@ def run_chain_unit(unit, res, c, progress):
                 if d >= 2:
                     res["nontrivial"].append(hash((d, tuple(catch), tuple(item), helper, how)) & 0xFFFFFFFFFFFF)
                 viol = []
+                if prelude_viol is not None:
+                    viol.append(prelude_viol)
                 want = ["lvl%d" % i for i in range(d)]
                 for k, names in enumerate(repeats):
                     user = [n for n in names if n.startswith("lvl") or n.startswith("wrap_")]
